@@ -1,6 +1,6 @@
 """C12 - the enfolding storage cache stays coherent with its backend."""
 import proto
-from common import Failure, Outcome, Broken
+from common import capped, Failure, Outcome, Broken
 from gen import pick
 import stores
 import polcase
@@ -70,7 +70,7 @@ class Spy:
 
 def dump(st, pid_of):
     try:
-        return sorted('%s:%d' % (proto.enc_str(p.uid), pid_of(p)) for p in st.retrieve_all(50))
+        return sorted('%s:%d' % (proto.enc_str(p.uid), pid_of(p)) for p in capped(st.retrieve_all(50)))
     except Exception as e:
         return ['dump-failed:%s' % type(e).__name__]
 
@@ -175,11 +175,11 @@ def run_history(kind, rng, nops, fail_at, out, script=None):
             elif op[0] == 'all':
                 mops.append('all %d %d' % (op[1], op[2]))
                 human.append('get_all%r' % (op[1:],))
-                o = 'pols ' + ','.join('%s:%d' % (proto.enc_str(p.uid), pid_of(p)) for p in ec.get_all(op[1], op[2]))
+                o = 'pols ' + ','.join('%s:%d' % (proto.enc_str(p.uid), pid_of(p)) for p in capped(ec.get_all(op[1], op[2])))
             else:
                 mops.append('retr %d' % op[1])
                 human.append('retrieve_all(%d)' % op[1])
-                o = 'pols ' + ','.join('%s:%d' % (proto.enc_str(p.uid), pid_of(p)) for p in ec.retrieve_all(op[1]))
+                o = 'pols ' + ','.join('%s:%d' % (proto.enc_str(p.uid), pid_of(p)) for p in capped(ec.retrieve_all(op[1])))
         except Injected:
             o = 'rejected'
             injected = True
@@ -193,6 +193,22 @@ def run_history(kind, rng, nops, fail_at, out, script=None):
         if (injected or o in ('rejected', 'exists')) and (b_dump != b_dump0 or c_dump != c_dump0):
             problems.append('%s failed (%s) but a store changed: cache %s -> %s, backend %s -> %s' % (
                 human[-1], o, c_dump0, c_dump, b_dump0, b_dump))
+        # candidate search: a populated cache that offers candidates answers without touching the backend
+        if not problems and not injected:
+            fq = Inquiry(action='get', subject='sx', resource='r')
+            c0 = spy.calls
+            try:
+                via = capped(ec.find_for_inquiry(fq, RegexChecker()))
+                own = capped(cache.find_for_inquiry(fq, RegexChecker()))
+                if own and spy.calls > c0:
+                    problems.append('find_for_inquiry touched the backend although the populated cache offers %d '
+                                    'candidate(s)' % len(own))
+                elif own and sorted(str(p.uid) for p in via) != sorted(str(p.uid) for p in own):
+                    problems.append('find_for_inquiry through the enfolding cache gives %s, its cache store %s'
+                                    % (sorted(str(p.uid) for p in via), sorted(str(p.uid) for p in own)))
+            except Exception as e:
+                problems.append('find_for_inquiry raised %s' % type(e).__name__)
+            spy.calls = c0
         if problems:
             break
     # decisions through the cache equal decisions over the backend alone
